@@ -266,6 +266,9 @@ def _container(v, env=None, depth=0):
         return ('place', key)
     if isinstance(v, tuple) and v and v[0] == 'call':
         return ('val', v[1], tuple(_container(a, env, depth + 1) for a in v[2]))
+    if isinstance(v, tuple) and len(v) == 2 and v[0] == 'local' and isinstance(v[1], int):
+        # a reference held in a parameter / local designates what `&*_n` designates
+        return ('place', '_%d.*' % v[1])
     return ('val', v)
 
 
@@ -459,6 +462,24 @@ def _lt_established(p, pos, I, want_count, env):
             continue
         if _stable_after(p, p.cpos[ci], pos, want_count[2], env):
             return True
+    # the index is a constant k and the path has established the count itself: `match X.len() { n => .. }` / `X.len() == n` with k < n
+    k = int_of(I)
+    if k is not None:
+        for ci, (what, val, cb) in enumerate(p.constraints):
+            if p.cpos[ci] >= pos or what[0] != 'switch':
+                continue
+            c = what[1]
+            n = None
+            if isinstance(val, int) and not isinstance(val, bool) and _count_of(c, env) == want_count:
+                n = val                                   # switch on the count itself, arm of the value n
+            elif isinstance(c, tuple) and c and c[0] == 'binop' and c[1] in ('Eq', 'Ne'):
+                tv = True if val is None else bool(val)
+                eq = tv if c[1] == 'Eq' else not tv
+                for x, y in ((c[2], c[3]), (c[3], c[2])):
+                    if eq and _count_of(x, env) == want_count and int_of(y) is not None:
+                        n = int_of(y)
+            if n is not None and k < n and _stable_after(p, p.cpos[ci], pos, want_count[2], env):
+                return True
     # a resize(X, I + 1, ..) earlier on the path makes X.len() == I + 1
     if want_count[1] == 'len':
         for k, cl in enumerate(p.calls):
@@ -609,7 +630,9 @@ def path_discharge(F, site):
     b = site['block']
     n = site['what']
     kind = None
-    if site['kind'] == 'call' and (psc.is_index_call(n) or n.endswith(('Vec::<T, A>::swap_remove', 'Vec::<T, A>::remove'))) and len(t['args']) == 2:
+    if site['kind'] == 'call' and psc.is_index_call(n) and len(t['args']) == 2 and 'for str' in n:
+        kind = 'strslice'
+    elif site['kind'] == 'call' and (psc.is_index_call(n) or n.endswith(('Vec::<T, A>::swap_remove', 'Vec::<T, A>::remove'))) and len(t['args']) == 2:
         kind = 'index'
     elif site['kind'] == 'call' and n.endswith('Option::<T>::unwrap'):
         kind = 'nth'
@@ -627,6 +650,41 @@ def path_discharge(F, site):
                 continue
             reached += 1
             ai = AbsInt(F, fn)
+            if kind == 'strslice':
+                # text[..at] / text[at + k..] / text[at..at + k] where `at` is what text.find(pattern) answered for THIS text (not
+                # reassigned since) and k the length of that pattern: both ends are ends of a match, hence character boundaries
+                # inside the text
+                recv = ai.eval_op(env, t['args'][0])
+                I = simp(ai.eval_op(env, t['args'][1]))
+                if not (I[0] == 'agg' and str(I[1]).startswith('core::ops::range::Range')):
+                    return None
+                for bound in I[3]:
+                    w = bound
+                    if w[0] == 'field' and w[2] == '0' and w[1][0] == 'binop' and w[1][1] in ('AddWithOverflow', 'Add'):
+                        w2, extra = w[1][2], w[1][3]
+                        if not (int_of(extra) is not None or (extra[0] == 'call' and extra[1].endswith('str>::len'))):
+                            return None
+                        w = w2
+                    if int_of(w) == 0:
+                        continue
+                    if not (w[0] == 'field' and w[2] == '0' and w[1][0] == 'downcast' and w[1][2] == 'Some' and w[1][1][0] == 'call'
+                            and w[1][1][1].endswith(('str>::find', 'str>::rfind')) and w[1][1][2] and w[1][1][2][0] == recv):
+                        return None
+                    fb = w[1][1][3] if len(w[1][1]) > 3 else None
+                    fpos = max((p.callpos[k_] for k_, cl in enumerate(p.calls) if cl[0] == fb and cl[1] == w[1][1][1] and p.callpos[k_] < pos), default=None)
+                    if fpos is None:
+                        return None
+                    # the text variable is not assigned between the search and the slicing
+                    base = recv[1].split('.')[0] if recv[0] == 'ref' and isinstance(recv[1], str) else None
+                    if base is None or not base[1:].isdigit():
+                        return None
+                    bl_ = int(base[1:])
+                    for q in p.blocks[fpos + 1:pos + 1]:
+                        for st in fn.blocks[q]['stmts']:
+                            if st['k'] == 'assign' and st['place']['local'] == bl_ and not st['place']['proj']:
+                                return None
+                strslice_ok = True
+                continue
             if kind == 'index':
                 recv = ai.eval_op(env, t['args'][0])
                 I = ai.eval_op(env, t['args'][1])
@@ -655,6 +713,8 @@ def path_discharge(F, site):
                 return None
     if not reached:
         return None
+    if kind == 'strslice':
+        return 'D1p', 'on each of the %d paths reaching the site the slice bounds are the ends of a match that find() reported for this very text' % reached
     return 'D1p', 'on each of the %d paths reaching the site a branch taken earlier establishes index < %s of the same container' % (reached, 'chars().count()' if want[1] == 'chars' else 'len()')
 
 
